@@ -1,5 +1,6 @@
 SPECIFICATION PrepFailSpec
 CONSTANTS
+    Focus = "general"
     Cfgs <- PrepFailCfgs
     Ctors <- PrepFailCtors
     Layouts <- McLayouts
